@@ -122,7 +122,7 @@ class LockDomain(Domain):
         if fut.kind == 'lock':
             cls = self.cls_name(fut.cls)
             mode = fut.mode
-            site = (fr.where(bi), short(fr.body.path), fr.chain_str())
+            site = (fr.where(bi), self.known_owner(fr), fr.chain_str())
             k = (site[0], cls, mode)
             self.acq_sites[k] = self.acq_sites.get(k, 0) + 1
             self.acq_by.setdefault(cls, set()).add(short(fr.body.path))
